@@ -538,14 +538,14 @@ Qed.
 
 Lemma expect_ser_good es s route dec c mt seen :
   expect_ser es s route dec c = VGood mt seen ->
-  s <> SNil /\ resolve es route = Some mt /\ fits mt c (AVal (p_tid (msg_type mt)) 0) = true /\
+  s <> SNil /\ resolve es route = Some mt /\ fits mt c (AVal (p_tid (msg_type mt)) 0 0) = true /\
   exists v, seen = Some v /\ decode dec (p_tid (msg_type mt)) = DOk v.
 Proof.
   unfold expect_ser, expect_call.
   destruct s; try discriminate;
     (destruct (resolve es route) as [mt'|] eqn:R; [|discriminate]);
     (destruct (decode dec (p_tid (msg_type mt'))) as [v|] eqn:D; [|discriminate]);
-    (destruct (fits mt' c (AVal (p_tid (msg_type mt')) v)) eqn:F; [|discriminate]);
+    (destruct (fits mt' c (AVal (p_tid (msg_type mt')) 0 v)) eqn:F; [|discriminate]);
     intro E; inv E; (split; [discriminate|]); (split; [reflexivity|]);
     (split; [exact F | exists v; auto]).
 Qed.
@@ -820,6 +820,68 @@ Lemma tables_of_last_build ops k :
   s_entries (final ops k) = ss_reg (sfinal ops k).
 Proof.
   destruct (inv_run_from ops init sinit inv_init k) as [A B]. split; assumption.
+Qed.
+
+(* ---- frame: calls leave no trace ----
+   HasMethod / GetArgType / CallWithSerialize / Call / a dispatched request never change what any
+   later operation observes: there is no state besides the entries and the tables of the last
+   Build (no argument is reused, nothing is remembered from an earlier payload). *)
+Definition is_query (o : op) : bool :=
+  match o with OReg _ _ _ | OBuild _ => false | _ => true end.
+
+Definition obs_at (h : list op) (o : op) : obs := snd (step (final h) o).
+
+Lemma step_query s o : is_query o = true -> fst (step s o) = s.
+Proof. destruct o; try discriminate; reflexivity. Qed.
+
+Lemma run_from_queries cs : forall s, forallb is_query cs = true -> fst (run_from s cs) = s.
+Proof.
+  induction cs as [|o r IH]; intros s Q; simpl; [reflexivity|].
+  simpl in Q. apply andb_true_iff in Q. destruct Q as [Q1 Q2].
+  pose proof (step_query s o Q1) as E. destruct (step s o) as [s1 b]. simpl in E. subst s1.
+  specialize (IH s Q2). destruct (run_from s r) as [s2 bs]. simpl in *. exact IH.
+Qed.
+
+Lemma run_from_app h1 : forall s h2,
+  fst (run_from s (h1 ++ h2)) = fst (run_from (fst (run_from s h1)) h2) /\
+  snd (run_from s (h1 ++ h2)) = snd (run_from s h1) ++ snd (run_from (fst (run_from s h1)) h2).
+Proof.
+  induction h1 as [|o r IH]; intros s h2; simpl.
+  - split; reflexivity.
+  - destruct (step s o) as [s1 b]. destruct (IH s1 h2) as [A B].
+    destruct (run_from s1 (r ++ h2)) as [s2 bs]. destruct (run_from s1 r) as [s3 bs3].
+    simpl in *. split; [exact A | rewrite B; reflexivity].
+Qed.
+
+Lemma final_app h1 h2 : final (h1 ++ h2) = fst (run_from (final h1) h2).
+Proof. unfold final. apply run_from_app. Qed.
+
+Lemma run_snoc h o : run (h ++ [o]) = run h ++ [obs_at h o].
+Proof.
+  unfold run, obs_at, final. destruct (run_from_app h init [o]) as [_ B]. rewrite B. simpl.
+  destruct (step (fst (run_from init h)) o) as [s1 b]. reflexivity.
+Qed.
+
+Lemma call_frame h cs o : forallb is_query cs = true -> obs_at (h ++ cs) o = obs_at h o.
+Proof.
+  intro Q. unfold obs_at. rewrite final_app, run_from_queries by exact Q. reflexivity.
+Qed.
+
+(* after any history and any further calls whatsoever, a good call runs its target with the value
+   THIS call's payload decodes to (into a fresh value), and only with it *)
+Lemma invoked_with_own_payload h cs k s route bytes dec c cb b mt seen :
+  forallb is_query cs = true ->
+  f4_ser (ss_built (sfinal h k)) s route dec cb = false ->
+  expect_ser (ss_built (sfinal h k)) s route dec c = VGood mt seen ->
+  exists v, decode dec (p_tid (msg_type mt)) = DOk v /\
+    obs_at (h ++ cs) (OCallSer k s route bytes dec c cb b) =
+    BCall (EvInvoke (m_uid mt) (Some v) ::
+           (if cb && is_request mt then map EvComplete (owed b) else [])) false.
+Proof.
+  intros Q NF E. rewrite call_frame by exact Q.
+  destruct (expect_ser_good _ _ _ _ _ _ _ E) as [_ [_ [_ [v [Sv D]]]]]. exists v. split; [exact D|].
+  unfold obs_at. simpl. destruct (tables_of_last_build h k) as [T _]. rewrite T.
+  rewrite call_ser_trace by exact NF. rewrite E. subst seen. reflexivity.
 Qed.
 
 (* ---- readable corollaries ---- *)
